@@ -11,6 +11,17 @@
 #include VF_REPO_SRC(lib/Ninja/ManifestLoader.cpp)
 #include "vf_stream.h"
 typedef ManifestLoader::ManifestLoaderImpl Impl;
+// evalString by its contract on the strings this harness binds (plain letters and "$" + one-letter names): literal bytes are
+// written, every "$n" is looked up through the callback IN ORDER, each time it occurs.  C17-N3 decides the real evalString
+// against the Ninja reference for every string; here it would only multiply the cost of the look-up recursion under test.
+static unsigned g_evals = 0;
+extern "C" void stub_evalString(Impl* self, void* ctx, const char* p, size_t n, llvm::raw_ostream* result, std::function<void(void*, llvm::StringRef, llvm::raw_ostream&)>* lookup, std::function<void(const std::string&)>* error) {
+  g_evals++;
+  for (size_t i = 0; i < n && i < 8; i++) {
+    if (p[i] == '$' && i + 1 < n) { (*lookup)(ctx, llvm::StringRef(p + i + 1, 1), *result); i++; }
+    else *result << p[i];
+  }
+}
 static int g_errors = 0;
 struct Acts : public ManifestLoaderActions {
   void initialize(ManifestLoader*) override {}
